@@ -32,12 +32,14 @@ def string_program(rng, valid=True):
         return rng.choice([0, n, n // 2, max(0, n - 1), rng.randrange(n + 1), n + rng.choice([0, 0, 0, 1])])
     for _ in range(rng.choice([2, 3, 5, 8, 14])):
         r, q, t = rng.randrange(4), rng.randrange(4), rng.randrange(4)
-        op = rng.choice(["cz", "cl", "cs", "ca", "ca", "cn", "ci", "il", "ts", "ae", "as", "as", "pe", "ps", "ie", "ie", "ir", "ir",
+        op = rng.choice(["cz", "cb", "cc", "cl", "cs", "ca", "ca", "cn", "ci", "il", "ts", "ae", "as", "as", "pe", "ps", "ie", "ie", "ir", "ir",
                          "ea", "ef", "er", "er", "sw", "ix", "ob", "ob", "ob", "am", "am", "pm", "mv", "sa", "cq", "cq", "cq", "bi", "ri", "ri"])
-        if op in ("cz", "cl", "cs", "ts"):
+        if op in ("cz", "cb", "cc", "cl", "cs", "ts"):
             bs, h = rand_text_hex(rng)
             parts.append("%s %d %s" % (op, r, h))
-            size[r] = (bs.index(0) if 0 in bs else len(bs)) if op == "cz" else len(bs)
+            if op in ("cb", "cc"):
+                bs = bs[:80]
+            size[r] = (bs.index(0) if 0 in bs else len(bs)) if op in ("cz", "cb", "cc") else len(bs)
         elif op == "ca":
             bs, h = rand_text_hex(rng)
             parts.append("ca %d %s %s" % (r, h, " ".join(map(str, tg.attr(rng)))))
@@ -216,7 +218,7 @@ class Prop(PropBase):
             cs.append(Case("G g4 %d %d %d" % (rng.randrange(256), rng.randrange(256), rng.randrange(256)), tag="glyph-arr-any"))
         # programs over the whole of class string: every constructor and mutator, registers aliasing each other
         for h in ("00", "4100", "004142", "410042", "ff00ff", "-"):
-            for op in ("cz", "cl", "cs", "ts"):
+            for op in ("cz", "cb", "cc", "cl", "cs", "ts"):
                 cs.append(Case("P %s 0 %s" % (op, h), sweep="string-ctors-nul"))
             cs.append(Case("P ca 0 %s 0 1 0 0 0 4 0 0 1 4 7 5" % h, sweep="string-ctors-nul"))
         for _ in range(2500 if tier == "quick" else 60000):
